@@ -291,7 +291,7 @@ PLANS = {
     "C07": dict(e1=["ticket_pulls", "ticket_skip", "ticket_comp", "ticket_3t", "ticket_owner"],
                 inv=["Inv_C07_NoRace", "Inv_C07_Mutex"], bundles=["core", "wrap"], hb=True, revive=True,
                 only=lambda f: f["fam"] == "ticket"),
-    "C08": dict(e1=["counter_own_vec", "counter_own_arr", "counter_owner"], inv=["Inv_C08", "Inv_OwnEnd"], bundles=["core", "panic"], only=lambda f: f["consuming"]),
+    "C08": dict(e1=["counter_own_vec", "counter_own_arr", "counter_owner", "ticket_own", "ticket_own_seq"], inv=["Inv_C08", "Inv_OwnEnd"], bundles=["core", "panic"], only=lambda f: f["consuming"]),
     "C09": dict(e1=["counter_pulls", "counter_skipq", "counter_comp", "counter_3t", "ticket_pulls", "ticket_skip", "ticket_comp", "ticket_3t", "ticket_query"],
                 inv=["Inv_C09_LockFree"], bundles=["core", "freeze"], deadlock=True, revive=True),
     "C10": dict(e1=["counter_owner", "counter_range", "ticket_owner"], inv=["Inv_C10"], bundles=["core", "large"]),
